@@ -279,10 +279,20 @@ def chooseByKey (utf8 : Bool) (key : String) (pop : List PyVal) (ws : List Num) 
       | none => throw .indexError
   | .random _ => throw (.other "unreachable")
 
+/-- `repr(v)` with CPython's `repr(str)` for the strings in it (`printable`: the table of
+    `str.isprintable` code points, `GenCfg.printable`) -/
+def PyVal.pyRepr (printable : Nat → Bool) (v : PyVal) : Except Err String :=
+  PyVal.pyReprWith (PyStrLit.pyReprStr printable) v
+
+/-- `str(v)`: a string prints as itself; inside a tuple it prints as `repr(str)` does
+    (`("it's",)`, `('a\\b', 1)` for the value with one backslash) -/
+def PyVal.pyStr (printable : Nat → Bool) (v : PyVal) : Except Err String :=
+  PyVal.pyStrWith (PyStrLit.pyReprStr printable) v
+
 /-- the hashed key: salt followed by `str()` of the splitter values in sorted-name order -/
-def keyOf (salt : String) (names : List String) (env : Env) : Except Err String := do
+def keyOf (printable : Nat → Bool) (salt : String) (names : List String) (env : Env) : Except Err String := do
   let vals ← names.mapM fun n => match env.get n with
-    | some v => PyVal.pyStr v
+    | some v => PyVal.pyStr printable v
     | none => throw .nameError
   pure (salt ++ String.join vals)
 
@@ -303,7 +313,7 @@ def runGenerated (cfg : RunCfg) (e : Experiment) (env : Env) : Except Err Outcom
       let salt ← match e.salt with
         | some s => readBackStr cfg.toGenCfg cfg.strReprSalt s
         | none => pure ""
-      let key ← keyOf salt lv env
+      let key ← keyOf cfg.printable salt lv env
       pure (.group (← chooseByKey cfg.keyUtf8 key pop ws))
 
 /-- what `compile()` of the generated text checks before anything runs -/
